@@ -12,9 +12,13 @@ from multiprocessing import get_context
 from . import core
 
 
-def _check_trace(world, ev, before, rec, after, model, out):
+def _check_trace(world, ev, before, rec, after, model, out, only_pipeline=False):
     """Trace correspondence for one job; appends to out['mismatch'] / counters."""
     from . import tracecheck as tc
+    if only_pipeline:
+        from . import pipeline
+        pipeline.check(rec, ev, model, out)
+        return
     graph = world.local_graph(tc.shas_of(rec))
     cases = tc.merge_cases(rec, graph) + tc.push_cases(rec, graph)
     if cases:
@@ -30,6 +34,9 @@ def _check_trace(world, ev, before, rec, after, model, out):
                 out['mismatch'].append({'function': 'git_merge' if req.startswith('merge') else 'push',
                                         'input': {'event': ev, 'op': desc, 'request': req[:400]},
                                         'impl': exp, 'model': got})
+    # the control skeleton of every handler that ran (Model/Pipeline.v)
+    from . import pipeline
+    pipeline.check(rec, ev, model, out)
     # destination-writing merges against the prescribed fragment
     eff = tc.effective_dest_ops(rec)
     if eff:
@@ -455,7 +462,7 @@ def _worker(args):
     from . import histories, monitors
     model = core.Model(exe) if exe and do_corr else None
     mons = [(n, getattr(monitors, n)) for n in monitor_names]
-    out = {'seed': seed, 'jobs': 0, 'violations': [], 'mismatch': [], 'hist': {}, 'nontrivial': [],
+    out = {'seed': seed, 'jobs': 0, 'violations': [], 'mismatch': [], 'hist': {}, 'nontrivial': [], 'gates': [],
            'trace_ops': 0, 'history': None, 'error': None, 'wall': 0.0}
     events_so_far = []
     seen_tips = set()
@@ -470,6 +477,14 @@ def _worker(args):
         if moved:
             mode_ = 'noqueue' if not world.cfg['use_queue'] else ('skip' if world.cfg['skip_queue'] else 'queue')
             out['nontrivial'].append('%s|%s|%s|%s' % (mode_, world.cfg['no_octopus'], ','.join(moved), st))
+        try:
+            from . import pipeline as _pl
+            for g in _pl.gates(rec):
+                if len(out['gates']) < 4000:
+                    out['gates'].append(dict(g, event=ev, job_index=out['jobs'], status=st))
+        except Exception:
+            out['mismatch'].append({'function': 'gate-capture-crash', 'input': ev,
+                                    'impl': traceback.format_exc()[-800:], 'model': None})
         for name, m in mons:
             try:
                 for v in m(world, ev, before, rec, after):
@@ -487,7 +502,7 @@ def _worker(args):
         seen_tips.update(after['refs'].values())
         if model is not None:
             try:
-                _check_trace(world, ev, before, rec, after, model, out)
+                _check_trace(world, ev, before, rec, after, model, out, only_pipeline=(do_corr == 'pipeline'))
             except Exception:
                 out['mismatch'].append({'function': 'trace-check-crash', 'input': ev,
                                         'impl': traceback.format_exc()[-1200:], 'model': None})
@@ -529,9 +544,11 @@ def _worker(args):
 
 
 def run(ctx, seeds, length, monitor_names, mode=None, do_corr=True, cfg_override=None, max_prs=3,
-        admin_jobs=True, replay_history=None, workers=16, what='', fault_spec=None):
-    """Run the histories; fill ctx (evaluations, violations, mismatches, samples, histogram)."""
-    exe = ctx.model.exe if ctx.model is not None else None
+        admin_jobs=True, replay_history=None, workers=16, what='', fault_spec=None, model_exe=None):
+    """Run the histories; fill ctx (evaluations, violations, mismatches, samples, histogram).
+    do_corr: True = every trace check (needs the git/flow binary), 'pipeline' = only the handler skeletons
+    (Model/Pipeline.v; any binary that answers `pipe` requests, given as model_exe), False = monitors only."""
+    exe = model_exe or (ctx.model.exe if ctx.model is not None else None)
     if replay_history is not None:
         jobs = [(0, length, mode, monitor_names, exe, do_corr, cfg_override, max_prs, admin_jobs, replay_history,
                  None)]
